@@ -236,7 +236,7 @@ def build_arg(v):
 
 # ------------------------------------------------------------------------------------------ qubits
 
-NAMES = ["alice", "bob", "my_qubit", "q", "anc0", "x3"]
+NAMES = ["alice", "bob", "my_qubit", "q", "anc0", "x3", "a", "m", "t", "abc123", "hello", "X", "T"]  # some spell symbols / keys / tags
 
 
 def qubit_recipes():
@@ -272,9 +272,17 @@ DD = ["X", "Y", "XY4", "XY8"]
 @st.composite
 def tag_recipes(draw):
     k = draw(st.sampled_from(["physz", "cal", "cal", "dd", "internal", "internal", "compress", "fsim_model", "two_pulse",
-                              "str", "str", "int", "float", "bool", "mixtuple", "cal", "str", "internal", "rare"]))
+                              "str", "str", "int", "float", "bool", "mixtuple", "cal", "str", "internal", "rare", "one", "one"]))
+    if k == "one":  # equal-but-different-type values share one constants-table entry: 1 / 1.0 / True (and the string '1' must not)
+        return draw(st.sampled_from([["int", 1], ["float", 1.0], ["bool", True], ["str", "1"], ["int", 0], ["float", 0.0], ["bool", False], ["str", "0"],
+                                     ["str", "1.0"], ["str", "True"]]))
     if k == "rare":
-        k = draw(st.sampled_from(["unknown", "unknown", "none", "numtuple", "str", "str"]))
+        k = draw(st.sampled_from(["unknown", "unknown", "none", "numtuple", "str", "qobj", "opobj", "str"]))
+    if k == "str" and draw(st.sampled_from([True, False, False])):
+        # a raw string tag spelling the proto id of a qubit of this program (constants of different kinds share one table)
+        return ["qid", draw(st.integers(0, 5))]
+    if k in ("qobj", "opobj"):
+        return [k, draw(st.integers(0, 5))]
     if k == "cal":
         return ["cal", draw(st.sampled_from(TOKENS))]
     if k == "dd":
@@ -286,7 +294,7 @@ def tag_recipes(draw):
             args[key] = draw(arg_values(hashable_only=True))
         return ["internal", draw(st.sampled_from(["T", "Tag2"])), draw(st.sampled_from(["pkg", "pkg.sub"])), args]
     if k == "str":
-        return ["str", draw(st.sampled_from(["t", "hello", "", "abc123"]))]
+        return ["str", draw(st.sampled_from(COLLIDING_STRS))]
     if k == "int":
         return ["int", draw(st.integers(-3, 3))]
     if k == "float":
@@ -298,6 +306,12 @@ def tag_recipes(draw):
     if k == "numtuple":
         return ["numtuple", draw(st.lists(st.integers(0, 3), min_size=1, max_size=2))]
     return [k]
+
+
+# raw string tags that spell other things of the same program: measurement keys, symbol names, qubit ids / names, gate and tag
+# names, calibration tokens, reprs of other tags and of the numeric tags 1 / 1.0 / True
+COLLIDING_STRS = ["t", "hello", "", "abc123", "def456", "m", "k0", "z", "a", "b", "alice", "q", "0_1", "1_1", "0", "1", "1.0", "True", "X", "G",
+                  "T", "pkg", "XY4", "cirq_google.PhysicalZTag()", "CalibrationTag('abc123')", "amp"]
 
 
 class UnknownTag:
@@ -316,7 +330,18 @@ class UnknownTag:
         return f"UnknownTag({self.v})"
 
 
-def build_tag(r):
+def proto_id_of(q):
+    """Restated from the docstring of qubit_to_proto_id (not calling the code under test)."""
+    import cirq
+
+    if isinstance(q, cirq.GridQubit):
+        return f"{q.row}_{q.col}"
+    if isinstance(q, cirq.LineQubit):
+        return f"{q.x}"
+    return getattr(q, "name", "q")
+
+
+def build_tag(r, ctx=None):
     import cirq_google as cg
     from cirq_google.ops import DynamicalDecouplingTag
 
@@ -337,6 +362,15 @@ def build_tag(r):
         return cg.TwoPulseFSimTag()
     if k == "str":
         return str(r[1])
+    if k in ("qid", "qobj"):
+        qs = (ctx or {}).get("qubits") or []
+        if not qs:
+            return "0_0"
+        q = qs[int(r[1]) % len(qs)]
+        return proto_id_of(q) if k == "qid" else q
+    if k == "opobj":
+        ops = (ctx or {}).get("ops") or []
+        return ops[int(r[1]) % len(ops)] if ops else "op"
     if k == "int":
         return int(r[1])
     if k == "float":
@@ -637,6 +671,13 @@ def program_recipes(draw, max_q=6, sizes=(2, 3, 4, 5, 6, 8), subs=True, sym=True
     ncirc = draw(st.sampled_from([1, 2, 3, 4, 6, 8]))
     r["circuit"] = draw(st.lists(st.integers(0, len(r["moments"]) - 1), min_size=ncirc, max_size=ncirc))
     r["ctags"] = draw(tag_lists(1)) if draw(one_in(5)) else []
+    if nq >= 2 and draw(one_in(5)):
+        # tag serialized BEFORE the qubit whose proto id it spells: a leading moment X(q_i) tagged with the id of q_j (j != i)
+        i, j = list(draw(st.permutations(list(range(nq)))))[:2]
+        where = draw(st.sampled_from(["op", "op", "moment"]))
+        r["ops"].append({"g": ["X", {"e": ["f", 1.0], "s": 0}], "q": [i], "tags": [["qid", j]] if where == "op" else [], "ctl": [], "tag_outside": False})
+        r["moments"].append({"refs": [["o", len(r["ops"]) - 1]], "tags": [["qid", j]] if where == "moment" else []})
+        r["circuit"] = [len(r["moments"]) - 1] + r["circuit"]
     return r
 
 
@@ -671,7 +712,7 @@ def _cop_recipes(draw, sub, nq):
     }
 
 
-def build_op(r, o, qubits):
+def build_op(r, o, qubits, ctx=None):
     import cirq
 
     qs = [qubits[i % len(qubits)] for i in o["q"]]
@@ -688,7 +729,7 @@ def build_op(r, o, qubits):
         op = cirq.IdentityGate(qid_shape=(3,)).on(*qs)
     else:
         op = build_gate(g, len(qs)).on(*qs)
-    tags = [build_tag(t) for t in o.get("tags", [])]
+    tags = [build_tag(t, ctx) for t in o.get("tags", [])]
     ctl = [build_condition(c) for c in o.get("ctl", [])]
     if ctl and o.get("tag_outside"):
         op = op.with_classical_controls(*ctl)
@@ -709,7 +750,12 @@ def build_program(r):
     qubits = [build_qubit(q) for q in r["qubits"]]
     if not qubits:
         qubits = [cirq.GridQubit(0, 0)]
-    ops = [build_op(r, o, qubits) for o in r["ops"]]
+    ctx = {"qubits": qubits, "ops": []}
+    first = [build_op(r, o, qubits, ctx) for o in r["ops"]]
+    # tags that are cirq objects equal to an operation of the pool (second pass, so every pool op can be referred to)
+    ctx["ops"] = [op.untagged.without_classical_controls().untagged for op in first
+                  if not isinstance(op.untagged.without_classical_controls().untagged, cirq.CircuitOperation)]
+    ops = [build_op(r, o, qubits, ctx) for o in r["ops"]] if any(t[0] == "opobj" for o in r["ops"] for t in o.get("tags", [])) else first
     subs = []
     cops = []
 
@@ -725,13 +771,13 @@ def build_program(r):
                 continue
             used |= set(op.qubits)
             out.append(op)
-        return cirq.Moment(out, tags=tuple(build_tag(t) for t in tags))
+        return cirq.Moment(out, tags=tuple(build_tag(t, ctx) for t in tags))
 
     ncops_per_sub = {}
     for c in r.get("cops", []):
         ncops_per_sub.setdefault(c["sub"], []).append(c)
     for si, s in enumerate(r.get("subs", [])):
-        fc = cirq.FrozenCircuit([moment(m) for m in s["moments"]], tags=[build_tag(t) for t in s.get("tags", [])])
+        fc = cirq.FrozenCircuit([moment(m) for m in s["moments"]], tags=[build_tag(t, ctx) for t in s.get("tags", [])])
         subs.append(fc)
         for c in ncops_per_sub.get(si, []):
             kw = {}
@@ -756,20 +802,21 @@ def build_program(r):
             cop = cirq.CircuitOperation(fc, repetitions=int(c["reps"]), use_repetition_ids=bool(c["use"]), **kw)
             op = cop
             if c.get("tags"):
-                op = op.with_tags(*[build_tag(t) for t in c["tags"]])
+                op = op.with_tags(*[build_tag(t, ctx) for t in c["tags"]])
             if c.get("ctl"):
                 op = op.with_classical_controls(*[build_condition(x) for x in c["ctl"]])
             cops.append(op)
     moments = [moment(m["refs"], m.get("tags", [])) for m in r["moments"]]
     if not moments:
         moments = [cirq.Moment()]
-    circuit = cirq.Circuit([moments[i % len(moments)] for i in r["circuit"]], tags=[build_tag(t) for t in r.get("ctags", [])])
+    circuit = cirq.Circuit([moments[i % len(moments)] for i in r["circuit"]], tags=[build_tag(t, ctx) for t in r.get("ctags", [])])
     return circuit
 
 
 # ------------------------------------------------------------------------------------------ sweeps
 
 KEYS = ["a", "b", "c", "d", "e", "f", "g", "h"]
+UNIT_GROUPS = [["ns", "us", "ms"], ["kHz", "MHz", "GHz"], ["mV", "V"]]
 
 
 def _point_values(exact):
@@ -792,22 +839,28 @@ def _meta(draw):
 
 @st.composite
 def _single(draw, key, exact):
-    k = draw(st.sampled_from(["lin", "lin", "lin", "pts", "pts", "pts", "const", "const", "ulin", "upts", "frv"]))
+    k = draw(st.sampled_from(["lin", "lin", "lin", "pts", "pts", "pts", "const", "const", "ulin", "ulin", "upts", "upts", "frv"]))
     if k == "pts" and draw(one_in(15)):
         k = "pts0"
     num = exact_numbers() if exact else numbers()
     if k == "lin":
         return ["lin", key, draw(num), draw(num), draw(st.integers(1, 4)), None, draw(_meta())]
     if k == "ulin":
-        return ["lin", key, draw(num), draw(num), draw(st.integers(1, 4)), draw(st.sampled_from(["ns", "GHz", "MHz"])), draw(_meta())]
+        # start and stop in (possibly different) units of one dimension: ns/us/ms, kHz/MHz/GHz, mV/V
+        grp = draw(st.sampled_from(UNIT_GROUPS))
+        us, ue = draw(st.sampled_from(grp)), draw(st.sampled_from(grp))
+        return ["lin", key, draw(num), draw(num), draw(st.sampled_from([1, 2, 3, 4])), us if us == ue else [us, ue], draw(_meta())]
     if k == "pts":
         vals = draw(st.lists(st.one_of(num.map(lambda x: ["f", x]), st.integers(-3, 3).map(lambda i: ["i", i])), min_size=2, max_size=4))
         return ["pts", key, vals, draw(_meta())]
     if k == "pts0":
         return ["pts", key, [], None]
     if k == "upts":
-        u = draw(st.sampled_from(["ns", "GHz", "MHz"]))
-        vals = draw(st.lists(num.map(lambda x: ["u", x, u]), min_size=1, max_size=3))
+        grp = draw(st.sampled_from(UNIT_GROUPS))
+        same = draw(st.booleans())
+        u0 = draw(st.sampled_from(grp))
+        n = draw(st.sampled_from([1, 2, 3, 3]))
+        vals = [["u", draw(num), u0 if same else draw(st.sampled_from(grp))] for _ in range(n)]
         return ["pts", key, vals, draw(_meta())]
     if k == "const":
         v = draw(st.one_of(num.map(lambda x: ["f", x]), st.integers(-2 ** 40, 2 ** 40).map(lambda i: ["i", i]), st.sampled_from(STRS).map(lambda s: ["str", s]),
@@ -908,8 +961,8 @@ def build_sweep(r):
     if k == "lin":
         _, key, a, b, n, unit, meta = (list(r) + [None, None])[:7]
         if unit:
-            u = getattr(tunits, unit)
-            return cirq.Linspace(key, a * u, b * u, int(n), metadata=build_meta(meta))
+            us, ue = (unit, unit) if isinstance(unit, str) else (unit[0], unit[1])
+            return cirq.Linspace(key, a * getattr(tunits, us), b * getattr(tunits, ue), int(n), metadata=build_meta(meta))
         return cirq.Linspace(key, a, b, int(n), metadata=build_meta(meta))
     if k == "pts":
         return cirq.Points(r[1], [_pt(v) for v in r[2]], metadata=build_meta(r[3] if len(r) > 3 else None))
